@@ -157,7 +157,7 @@ def run(ck):
                           "theorems_no_longer_tied": ["C09_range_sound", "C09_range_sound_in_system"]})
     return ck.finish(level="proof",
         rule="exhaustive over widths 0..=256 (bit-counted entry point and runtime seam) and pairs 0..=130 (deprecated entry point) x boundary values (2^w-1, 2^w, 2^w+1, r-1, random; thorough adds quad-padding boundaries); every real snapshot is compared with the model and evaluated by the extracted row evaluator against the expected verdict; alias template on out-of-range values; L1 widget tuples",
-        assumptions=["PrimeR (prime r)", "asg ZERO = 0 (row 0 of every initialized composer)", "completeness (C09_range_complete) is proved for the accumulator values the model computes; that the real gadget computes the same values is the L3 tie"],
+        assumptions=["PrimeR (prime r): class argument of the statements, proved closed in Props/Hypotheses.v", "asg ZERO = 0 (row 0 of every initialized composer)", "completeness (C09_range_complete) is proved for the accumulator values the model computes; that the real gadget computes the same values is the L3 tie"],
         checker_cmd=proofgate.CHECKER_CMD, trusted_base=proofgate.TRUSTED, extra={"exhaustive": True})
 
 def replay(ck, path):
